@@ -739,6 +739,8 @@ class GeoBox(GeoBoxBase):
         x0, y0, x1, y1 = map(int, bounding_box_in_pixel_domain(other, self, tol))
         x0, y0 = max(0, x0), max(0, y0)
         x1, y1 = min(x1, nx), min(y1, ny)
+        # no overlap: empty slice, never a negative or reversed stop
+        x1, y1 = max(x0, x1), max(y0, y1)
         return numpy.s_[y0:y1, x0:x1]
 
     @property
